@@ -225,3 +225,32 @@ def stub_kernel(name, mode, numeric=None):
         return out
 
     return regular if mode == "regular" else singular
+
+
+def attach_symbolic_barycentric(grid, tag="v"):
+    """Symbolic geometry for a grid AND its barycentric refinement, consistent with each other: the refined vertices are produced by the real
+    _create_barycentric_connectivity_array on the coarse symbols (midpoints, centroids), the geometric quantities of both grids by the real
+    _compute_geometric_quantities. Returns (coarse _GeomSelf, barycentric _GeomSelf)."""
+    from bempp_cl.api.grid import grid as G
+
+    g = attach_symbolic(grid, tag)
+    bary = grid.barycentric_refinement
+    f = G._create_barycentric_connectivity_array
+    f = getattr(f, "py_func", f)
+    with patched(G):
+        NV, NE = f(g._vertices, grid.elements, grid.element_edges, grid.edges, grid.number_of_edges)
+    NE = np.array([[int(S.Sym._coerce(x).const_value()) for x in row] for row in NE])
+    if not np.array_equal(NE, np.asarray(bary.elements).astype(int)):
+        raise AssertionError("symbolic and numeric barycentric connectivity differ")
+    gb = _GeomSelf(NV, np.asarray(bary.elements))
+    with patched(G):
+        G.Grid._compute_geometric_quantities(gb)
+    d = bary._grid_data_double
+    data = G.GridDataDouble(
+        gb._vertices, bary.elements, bary.edges, bary.element_edges, gb._volumes, gb._normals, gb._jacobians,
+        gb._jacobian_inverse_transposed, gb._diameters, gb._integration_elements, gb._centroids, bary.domain_indices,
+        bary.vertex_on_boundary, d.element_neighbor_indices, d.element_neighbor_indexptr)
+    bary._numeric_grid_data_double = d
+    bary._grid_data_double = data
+    bary._sym = gb
+    return g, gb
